@@ -68,6 +68,14 @@ def problem(name, dtype):
         def f(t, y):
             return np.stack([y[1], -np.sin(y[0])])
         return f
+    if name == "stiffroot":     # y' = -50 sign(y) sqrt|y| + 1 : non-Lipschitz at 0, implicit stage equations can fail to converge
+        def f(t, y):
+            return -50.0 * np.sign(y) * np.sqrt(np.abs(y)) + 1.0
+        return f
+    if name == "nanwall":      # smooth for |t| < 1/2, undefined beyond: no step can be taken across the wall
+        def f(t, y):
+            return -y if abs(t) < 0.5 else np.nan * y
+        return f
     if name == "const":
         def f(t, y):
             return np.ones_like(y)
@@ -447,4 +455,57 @@ def normalise(sc, lg):
         out.append(o)
     fam = family_of(sc["method"])
     return {"id": sc["id"], "family": fam, "dense": bool(sc.get("dense", False)),
-            "t0": it.r(np.asarray(sc["t0"], dtype=dt)), "events": out, "zero": 0}
+            "t0": it.r(np.asarray(sc["t0"], dtype=dt)), "events": out, "expectFail": list(sc.get("expectFail", []))}
+
+
+# ---------------------------------------------------------------------------------------------
+# plain (unobserved) execution, used for twin comparisons
+
+def run_plain(sc):
+    """Execute the scenario on a plain de.OdeSystem.  Returns dict(t, y, ok, err, nfev, events, dt, status)."""
+    dt = np.dtype(sc.get("dtype", "float64"))
+    f0 = problem(sc.get("problem", "osc"), dt)
+    if sc.get("reflect"):
+        def f(t, y):
+            return -f0(-t, y)
+    else:
+        f = f0
+    y0 = np.array(sc["y0"], dtype=dt)
+    kw = {}
+    if sc.get("rtol") is not None:
+        kw["rtol"] = sc["rtol"]
+    if sc.get("atol") is not None:
+        kw["atol"] = sc["atol"]
+    system = de.OdeSystem(f, y0, t=(sc["t0"], sc["tf"]), dt=sc["dt"], dense_output=bool(sc.get("dense", False)), **kw)
+    system.method = method_class(sc["method"])
+    err = None
+    calls = [0]
+    for op in sc["ops"]:
+        name = op["op"]
+        try:
+            if name == "integrate":
+                evs = [make_event(e, dt) for e in op["events"]] if op.get("events") else None
+                cbs = [c for c in (make_callback(c, dt) for c in op.get("cbs", [])) if c is not None] or None
+                system.integrate(t=op.get("t"), events=evs, callback=cbs)
+            elif name == "reset":
+                system.reset()
+            elif name == "set":
+                w, v = op["what"], op["v"]
+                if w == "dt":
+                    system.dt = v
+                elif w == "rtol":
+                    system.rtol = v
+                elif w == "atol":
+                    system.atol = v
+                elif w == "tf":
+                    system.tf = v
+                elif w == "method":
+                    system.method = method_class(v)
+                elif w == "kick":
+                    system.set_kick_vars(np.array(v, dtype=bool))
+        except Exception as e:  # noqa
+            err = type(e).__name__
+            break
+    return {"t": np.array(system.t, copy=True), "y": np.array(system.y, copy=True), "ok": err is None, "err": err,
+            "nfev": system.nfev, "events": [(e.t, np.array(e.y, copy=True)) for e in system.events], "dt": system.dt,
+            "status": system.integration_status, "system": system}
